@@ -1,13 +1,126 @@
 """C04 — chunked writing is equivalent to one-shot writing.
-Model: Model/Las.v writer (wopen/wstep/wrun) refining file_of (Proofs/WriterProofs.v).
+Model: Model/Las.v writer (wopen/wstep/wrun) refining file_of (Proofs/WriterProofs.v); Model/WriterAlias.v: the same writer inside
+a session in which the caller keeps modifying ITS objects in place (header, VLR list, PointFormat objects shared with chunks),
+plain or as a with-block left by an exception (Proofs/WriterAliasProofs.v).
 Correspondence: bytes in the destination after random writer sessions (chunks incl. empty and foreign-format ones, write_evlrs,
-close at any position) vs the extracted model. Search: chunked bytes vs one-shot bytes on the implementation; refusals leave the file unchanged."""
+close at any position) vs the extracted model (main driver); aliasing sessions (caller edits interleaved, every entry point,
+with-blocks, chunk formats by object identity) vs the extracted aliasing model (bin/lasmodel_c04): outcomes, file bytes and the
+caller's world after the session.
+Search: chunked bytes vs one-shot bytes OF THE HEADER AS IT WAS AT OPEN on the implementation; refusals leave the file unchanged;
+a with-block left by an exception leaves the file of the accepted calls alone; no writer operation modifies the caller's objects."""
+import shutil
+import tempfile
+
 from harness import common, lasio, sessions
+
+DRIVER = "c04"
 
 ASSUMPTIONS = ["uncompressed destination (the compressed half of the property is C14)",
                "x -> x*scale+offset is monotone in binary64 for the positive scales used (hypothesis ap_ok of the theorems)"]
 
 _SESS = None
+_ALIAS = None
+
+
+def alias_sessions_for(ctx):
+    """aliasing sessions (sessions.alias_writer_session), generated AND executed step by step"""
+    global _ALIAS
+    if _ALIAS is None:
+        sessions_for(ctx)          # keep the random stream of the older generator as it was
+        tmp = tempfile.mkdtemp(prefix="verif_c04_", dir="/var/tmp")
+        try:
+            _ALIAS = [sessions.alias_writer_session(ctx.rng, ctx.thorough(), tmp) for _ in range(ctx.n(450, 5000))]
+            _ALIAS += near_miss_sessions(ctx)
+        finally:
+            shutil.rmtree(tmp, ignore_errors=True)
+    return _ALIAS
+
+
+NEAR_MISS = [  # (writer's extra dimension, chunk's extra dimension, what differs) - same format id, same record size
+    (("zz", "u4", "d", None), ("zz", "2u2", "d", None), "element count (u4 / 2u2)"),
+    (("zz", "2u2", "d", None), ("zz", "u4", "d", None), "element count (2u2 / u4)"),
+    (("zz", "i8", "", None), ("zz", "2i4", "", None), "element count (i8 / 2i4)"),
+    (("zz", "u2", "", None), ("zz", "2u1", "", None), "element count (u2 / 2u1)"),
+    (("zz", "u4", "d", None), ("zz", "i4", "d", None), "signedness"),
+    (("zz", "u4", "d", None), ("zz", "f4", "d", None), "integer / float"),
+    (("zz", "3u1", "d", None), ("zz", "3i1", "d", None), "signedness of a 3-element dimension"),
+    (("zz", "u4", "d", None), ("zy", "u4", "d", None), "name"),
+    (("zz", "u4", "d", None), ("zz ", "u4", "d", None), "name (trailing blank)"),
+    (("zz", "u4", "d", None), ("zz", "u4", "e", None), "description"),
+    (("zz", "u4", "d", None), ("zz", "u4", "", None), "description (empty)"),
+    (("zz", "u4", "d", (0.5, 0.0)), ("zz", "u4", "d", None), "scaled / unscaled"),
+    (("zz", "u4", "d", None), ("zz", "u4", "d", (1.0, 0.0)), "unscaled / neutral scaling"),
+    (("zz", "u4", "d", (0.5, 0.0)), ("zz", "u4", "d", (0.25, 0.0)), "scale"),
+    (("zz", "u4", "d", (0.5, 0.0)), ("zz", "u4", "d", (0.5, 1.0)), "offset"),
+    (("zz", "5u1", "d", None), ("zz", "4u1", "d", None), "opaque byte count"),
+    (("zz", "4u1", "d", None), ("zz", "u4", "d", None), "opaque bytes / typed, same width"),
+]
+
+
+leak_kind = sessions.leak_kind
+
+
+def near_miss_sessions(ctx):
+    """class (c), enumerated: an accepted chunk, then a chunk whose point format differs from the writer's in exactly one respect
+    while the record size stays the same (or, for the last rows, hardly changes); both directions"""
+    import copy
+    import numpy as np
+    import laspy
+    out = []
+
+    def fmt_with(pid, spec):
+        pf = laspy.PointFormat(pid)
+        n = int(spec[1][0]) if spec[1][0].isdigit() else 1
+        kw = {}
+        if spec[3] is not None:
+            kw = dict(scales=np.full(n, spec[3][0]), offsets=np.full(n, spec[3][1]))
+        pf.add_extra_dimension(laspy.ExtraBytesParams(spec[0], spec[1], description=spec[2], **kw))
+        return pf
+    for wspec, cspec, what in NEAR_MISS:
+        rng = ctx.rng
+        version = rng.choice(lasio.VERSIONS)
+        pid = rng.choice(lasio.COMPAT[version])
+        h = lasio.rand_header(rng, version=version, fmt=pid, nvlrs=rng.choice([0, 1]))
+        h.add_extra_dim(laspy.ExtraBytesParams(wspec[0], wspec[1], description=wspec[2],
+                                               **({} if wspec[3] is None else dict(scales=np.full(int(wspec[1][0]) if wspec[1][0].isdigit() else 1, wspec[3][0]),
+                                                                                  offsets=np.full(int(wspec[1][0]) if wspec[1][0].isdigit() else 1, wspec[3][1])))))
+        F = [h.point_format, copy.deepcopy(h.point_format), fmt_with(pid, cspec)]
+        open_header = copy.deepcopy(h)
+        open_val = sessions.format_value(h.point_format)
+        dest = sessions.KeepBytesIO()
+        w = laspy.LasWriter(dest, h, closefd=False)
+        res = {"desc": {"version": version, "format": pid, "writer_extra_dim": wspec, "chunk_extra_dim": cspec, "differs_in": what, "mode": "plain",
+                        "ops": ["w = laspy.LasWriter(<bytesio>, h, closefd=False)"]},
+               "outs": [], "unchanged": [], "expect": [], "kinds": [], "problems": [], "probe": [], "mode": "plain", "left": None,
+               "open_header": open_header, "open_val": open_val, "evl": None, "near_miss": what}
+        toks = ["plain", lasio.assoc_tok(lasio.header_assoc(h)), lasio.vlrs_tok(h.vlrs), "0", "|".join(sessions.fmt_tok(sessions.format_value(f)) for f in F)]
+        acc = b""
+        for a, n in ((1, 3), (2, 2), (1, 1)):
+            rec = lasio.rand_points(rng, sessions._Shim(F[a]), n)
+            same = sessions.format_value(F[a]) == open_val
+            b0 = dest.value()
+            try:
+                w.write_points(rec)
+                o = "ok"
+            except Exception as ex:
+                o = "err:" + common.exc_kind(ex)
+            res["desc"]["ops"].append(f"w.write_points(<{n} records, extra dimension {cspec if a == 2 else wspec}>)" + ("" if o == "ok" else "   # raised"))
+            res["outs"].append(o)
+            res["unchanged"].append(b0 == dest.value())
+            res["expect"].append("accepted" if same else "refused")
+            res["kinds"].append("P")
+            toks.append(f"P{a}:" + common.hexb(lasio.rec_bytes(rec) if same else bytes(n * open_val[1])))
+            if same and o == "ok":
+                acc += lasio.rec_bytes(rec)
+        w.close()
+        res["outs"].append("ok"); res["unchanged"].append(None); res["expect"].append("ok"); res["kinds"].append("C")
+        toks.append("C")
+        res["raw"] = dest.value()
+        res["accepted"] = acc
+        res["final_world"] = None
+        res["cmd"] = "sess " + " ".join(toks)
+        out.append(res)
+    return out
 
 
 def sessions_for(ctx):
@@ -54,6 +167,57 @@ def correspond(ctx):
             mparts = mo.split(" ")
             what = "outcomes" if mparts[0] != ",".join(iouts) else "file bytes"
             dis.append({"kind": f"writer session {what}", "input": d, "model": mo[:120], "impl": expect[:120]})
+    # ---- aliasing sessions vs Model/WriterAlias.v
+    ctx.extra["rule"] += (" || aliasing sessions: every entry point (LasWriter / laspy.open mode w on BytesIO, file stream, path; closefd on/off; plain, "
+                          "with-block with the exceptions caught inside, with-block left by the first refused call or by the caller's own exception), "
+                          "2..12 steps over {write_points of 0/1/2/5/17/40 records built on one of the caller's five PointFormat objects (the header's own, "
+                          "equal copies, one extended / restored in place, a foreign one incl. near misses), records kept from before and stale ones, "
+                          "ScaleAwarePointRecord in the scaling of the header at open, 0-d records; an IN-PLACE or re-binding edit of the caller's header / "
+                          "of the LasData owning it / of a format object (40 kinds: every scale/offset setter, scales[i], vlrs append/pop/payload, global "
+                          "encoding bits, uuid, strings, stale statistics, add/remove extra dimensions ...); write_evlrs; close; raise}. After the open a "
+                          "structural sharing probe (object graphs of the caller's world and of the writer) perturbs every mutable object reachable from both. "
+                          "Plus the enumerated near-miss formats (same id and width, one attribute of the extra dimension differs). "
+                          "non-trivial = an edit or a refusal happened between two accepted chunks, or the block was left by an exception")
+    al = [r for r in alias_sessions_for(ctx) if r.get("cmd")]
+    mouts = common.run_model([r["cmd"] for r in al], name="c04")
+    for r, mo in zip(al, mouts):
+        ctx.traces += 1
+        ops = r["desc"]["ops"]
+        ctx.case(repr(r["desc"]), nontrivial=(len(ops) > 3), sample=None)
+        ctx.count("alias:mode:" + r["mode"])
+        ctx.count("alias:entry:" + str(r["desc"].get("entry", "LasWriter")) + "/" + str(r["desc"].get("dest", "bytesio")))
+        for e, o in zip(r["expect"], r["outs"]):
+            ctx.count(f"alias:expect:{e}->{o}")
+        for p in r["probe"]:
+            ctx.count("alias:probe-shared:" + p.split(" (")[-1].rstrip(")"))
+        ctx.count("alias:edits", sum(1 for l in ops if not l.startswith(("w.", "w =", "with", "#", "raise"))))
+        if r["left"]:
+            ctx.count("alias:block-left-by:" + r["left"].split(":")[0])
+        m = mo.split(" ")
+        exp_outs = ",".join(r["outs"]) or "-"
+        if len(m) < 6:
+            dis.append({"kind": "aliasing session: model", "input": r["desc"], "model": mo[:160], "impl": exp_outs})
+            continue
+        if m[0] != exp_outs:
+            k = "aliasing session outcomes"
+            bad = [i for i, (a, b) in enumerate(zip(m[0].split(","), r["outs"])) if a != b]
+            if bad and r["expect"][bad[0]] == "refused" and r["outs"][bad[0]] == "ok":
+                k = leak_kind(r, bad[0])
+            dis.append({"kind": k, "input": r["desc"], "model": m[0], "impl": exp_outs})
+        elif r["raw"] is not None and m[1] != common.hexb(r["raw"]):
+            raw = common.hexb(r["raw"])
+            diff = next((i for i, (a, b) in enumerate(zip(m[1], raw)) if a != b), min(len(m[1]), len(raw)))
+            dis.append({"kind": "aliasing session file bytes", "input": r["desc"], "model": f"{(len(m[1]) - 1) // 2} bytes", "impl": f"{len(r['raw'])} bytes, first difference at byte {(diff - 1) // 2}"})
+        fw = r.get("final_world")
+        if fw is not None:
+            a = dict(eval(fw[0]))
+            ma = lasio.parse_assoc(m[2])
+            for k in ("point_format_id", "point_size"):
+                ma.pop(k, None)
+                a.pop(k, None)
+            if ma != a or lasio.parse_vlrs(m[3]) != fw[1] or [int(m[4])] != fw[4] or m[5] != "|".join(sessions.fmt_tok(v) for v in fw[3]):
+                bad = sorted(k for k in set(ma) | set(a) if ma.get(k) != a.get(k))
+                dis.append({"kind": "aliasing session: the caller's world after the session", "input": r["desc"], "model": f"fields differing: {bad[:6]}", "impl": "see input"})
     return dis
 
 
@@ -106,7 +270,51 @@ def search(ctx, seeds):
         if ref != raw:
             diff = next((i for i, (a, b) in enumerate(zip(ref, raw)) if a != b), min(len(ref), len(raw)))
             add("chunked differs from one-shot", d, f"first differing byte at {diff} (lengths {len(raw)} vs {len(ref)})")
-    return failing[:6]
+    # ---- aliasing sessions: the property stated on the implementation, against the header AS IT WAS WHEN THE WRITER WAS OPENED
+    for r in alias_sessions_for(ctx):
+        d = r["desc"]
+        if r["outs"] and r["outs"][0].startswith("open-err"):
+            continue
+        nm = r.get("near_miss")
+        leaked = False
+        for i, (kind, exp, o, same_bytes) in enumerate(zip(r["kinds"], r["expect"], r["outs"], r["unchanged"])):
+            if kind == "P" and exp == "refused":
+                if o != "err:ELaspy" or same_bytes is False:
+                    leaked = True
+                    if nm:
+                        add(leak_kind(r, i), d,
+                            f"write_points of records whose extra dimension is {d['chunk_extra_dim']} on a writer whose header has {d['writer_extra_dim']}: outcome {o}, file unchanged={same_bytes}")
+                    else:
+                        add(leak_kind(r, i), d, f"expected a refusal that leaves the file unchanged: outcome {o}, file unchanged={same_bytes}")
+            elif kind == "P" and exp == "accepted" and o != "ok":
+                add("legal chunk refused after the caller edited its own objects", d, f"write_points of records in the format the header had at open, writer not finished: {o}")
+            elif kind == "P" and exp == "ok" and (o != "ok" or same_bytes is False):
+                add("empty chunk not ignored", d, f"empty chunk: outcome {o}, unchanged={same_bytes}")
+            elif kind == "C" and o != "ok":
+                add("close failed in an aliasing session", d, f"close: {o}")
+            elif kind == "E" and exp == "ok" and o != "ok":
+                add("write_evlrs failed in an aliasing session", d, f"write_evlrs: {o}")
+        for what, where in r["problems"]:
+            add(what, d, f"during: {where}")
+        if r["raw"] is None or leaked:
+            continue
+        try:
+            ref = sessions.one_shot(r["open_header"], r["accepted"], r["evl"] if r["open_header"].version.minor >= 4 else None)
+        except Exception:
+            continue
+        if ref != r["raw"]:
+            raw = r["raw"]
+            diff = next((i for i, (a, b) in enumerate(zip(ref, raw)) if a != b), min(len(ref), len(raw)))
+            edited = any(not l.startswith(("w.", "w =", "with", "#", "raise")) for l in d["ops"])
+            if r["left"] is not None:
+                add("file after a with-block left by an exception is not the file of the accepted calls", d,
+                    f"block left by {r['left']}; first differing byte at {diff} (lengths {len(raw)} vs {len(ref)} for the one-shot file of the accepted chunks)")
+            elif edited:
+                add("chunked file differs from the one-shot file of the header as it was at open (caller edited its objects meanwhile)", d,
+                    f"first differing byte at {diff} (lengths {len(raw)} vs {len(ref)}); sharing probe: {r['probe'][:4]}")
+            else:
+                add("chunked differs from one-shot", d, f"first differing byte at {diff} (lengths {len(raw)} vs {len(ref)})")
+    return failing[:8]
 
 
 def replay(ctx, data):
